@@ -155,7 +155,7 @@ class Consumer:
     """one switch statement over op codes"""
 
     def __init__(self, facts, fn_ast, sw):
-        self.fn = fn_ast; self.sw = sw
+        self.fn = fn_ast; self.sw = sw; self.facts = facts
         self.groups = switch_cases(sw)
         self.labels = {}
         self.default = None
@@ -169,14 +169,8 @@ class Consumer:
     def default_is_error(self):
         if self.default is None:
             return None
-        for s in self.default['stmts']:
-            for c in calls(s):
-                if noreturn_call(c):
-                    return True
-            for x in walk(s):
-                if x['k'] == 'Throw':
-                    return True
-        return False
+        from . import common
+        return common.reports_error(self.facts, self.default['stmts'])
 
 
 def opcode_switches(facts, qname, which=None):
